@@ -32,6 +32,17 @@ def base_cfg(**kw):
     return c
 
 
+BASE_LONG = ("correct horse battery staple / eyJhbGciOiJIUzI1NiIsInR5cCI6IkpXVCJ9." * 30)
+
+
+def LONG(k, mark, base=BASE_LONG):
+    """a long secret: the first k characters of the common base, then `mark`, then a common tail"""
+    return base[:k] + mark + "-tail"
+
+
+PREFIX_LENGTHS = [15, 16, 31, 32, 63, 64, 71, 72, 127, 128, 129, 255, 256, 511, 512, 1023, 1024]
+PREFIX_LENGTHS_QUICK = [31, 32, 64, 72, 127, 128, 129, 256]
+
 WITNESSES = [
     ("F1-sweep-rebinds-login", dict(cfg=base_cfg(), t0=T0, creds=[["alice", "pa", "alice"], ["bob", "pb", "bob"]],
                                     events=[["A", "bob", "wrong"], ["T", 100 * S], ["A", "alice", "pa"]])),
@@ -48,6 +59,14 @@ WITNESSES = [
                              events=[["A", "ab", "c"], ["T", 1 * S], ["A", "a", "bc"], ["A", "abc", ""], ["A", "a", "bc"]])),
     ("concat-key-colon", dict(cfg=base_cfg(), t0=T0, creds=[["x", ":yz", "x"], ["x:y", "q", "x:y"]],
                               events=[["A", "x:y", "z"], ["T", 1 * S], ["A", "x", ":yz"], ["A", "x:y", "z"]])),
+    # the back-end raises once (no verdict): nothing may be recorded, the right password afterwards is accepted
+    ("backend-fault-is-no-verdict", dict(cfg=base_cfg(), t0=T0, creds=[["alice", "pa", "alice"]],
+                                         events=[["F", "alice", "pa"], ["T", 1 * S], ["A", "alice", "pa"], ["T", 16 * S],
+                                                 ["F", "alice", "pa"], ["A", "alice", "pa"]])),
+    # long credentials that agree in a long prefix (passphrases, tokens): distinct passwords, distinct cache entries
+    ("long-password-common-prefix", dict(cfg=base_cfg(), t0=T0, creds=[["alice", LONG(128, "R"), "alice"]],
+                                         events=[["A", "alice", LONG(128, "R")], ["A", "alice", LONG(128, "X")],
+                                                 ["T", 100 * S], ["A", "alice", LONG(127, "X")], ["A", "alice", LONG(128, "R")]])),
     # boundary: entry still valid at (expiry+1) s - 1 ns, expired at (expiry+1) s
     ("boundary-success", dict(cfg=base_cfg(exp_s=2, exp_f=5), t0=T0, creds=[["alice", "pa", "alice"]],
                               events=[["A", "alice", "pa"], ["T", 3 * S - 1], ["A", "alice", "pa"], ["T", 1], ["A", "alice", "pa"]])),
@@ -109,7 +128,7 @@ def mutate_table(rng, cfg, tbl, names, ldap_like):
     return tbl
 
 
-def gen_case(rng, malformed=False):
+def gen_case(rng, malformed=False, deep=False):
     cfg = gen_cfg(rng)
     names = rng.sample(NAMES, rng.randint(1, 4))
     if malformed:
@@ -126,6 +145,15 @@ def gen_case(rng, malformed=False):
         right = {n: rng.choice(concat + ["zz"]) for n in names}
         tbl = [[X.map_login_spec(cfg, n), right[n], ("u-" + X.map_login_spec(cfg, n)) if ldap_like else X.map_login_spec(cfg, n)]
                for n in names]
+    longfam = None
+    if not malformed and concat is None and rng.random() < 0.10:
+        # long secrets (passphrases, tokens) that agree in their first k characters, k around the usual buffer sizes;
+        # a multi-byte character early in the base makes byte and character offsets differ
+        base = (rng.choice(["", "\u4e2d"]) + BASE_LONG)
+        k = rng.choice(PREFIX_LENGTHS if deep else PREFIX_LENGTHS_QUICK)
+        longfam = [LONG(k, "R", base), LONG(k, "X", base), base[:k], LONG(max(k - 1, 0), "R", base), LONG(k + 1, "R", base)]
+        for row in tbl:
+            row[1] = longfam[0]
     tbl0 = [list(r) for r in tbl]
     nonmono = rng.random() < 0.08
     n = rng.randint(1, 30)
@@ -147,13 +175,17 @@ def gen_case(rng, malformed=False):
                 pw = right if rng.random() < 0.5 else rng.choice(["w1", "w2", "", "p" + rng.choice(NAMES)[0], "q"])
                 if concat is not None and rng.random() < 0.8:
                     pw = right if rng.random() < 0.35 else rng.choice(concat)
+                if longfam is not None:
+                    pw = right if rng.random() < 0.4 else rng.choice(longfam)
                 ev = ["A", login, pw]
             if style == "alternate" and last is not None and rng.random() < 0.5 and len(events) >= 2:
-                prev = [e for e in events if e[0] == "A"]
+                prev = [["A", e[1], e[2]] for e in events if e[0] in ("A", "F")]
                 if len(prev) >= 2:
                     ev = list(prev[-2])
+            if rng.random() < 0.04:
+                ev = ["F", ev[1], ev[2]]          # the back-end raises during this attempt
             events.append(ev)
-            last = ev
+            last = ["A", ev[1], ev[2]]
             att_times.append(now)
         elif r < 0.9:
             k = rng.random()
@@ -230,7 +262,7 @@ def nontrivial(case, res):
 def run(ctx):
     ctx.rule = ("history = attempts (1-4 logins, raw spellings with case/domain variants, right/wrong/empty passwords, repeated "
                 "and alternating) interleaved with clock advances (0, +-1 ns / +-1 s around expiry and expiry+1 s measured from an "
-                "earlier attempt, large, a few negative) and credential changes; plus login/password pairs with equal concatenations; exhaustive short histories over 2 logins x 2 "
+                "earlier attempt, large, a few negative), credential changes and attempts during which the back-end raises; long secrets sharing a prefix; plus login/password pairs with equal concatenations; exhaustive short histories over 2 logins x 2 "
                 "passwords x 3 jumps x credential change. non-trivial = some mapped login is attempted at least twice; distinct by "
                 "(config, credentials, event list)")
     ctx.assumptions += [
@@ -242,7 +274,7 @@ def run(ctx):
         "age suite on boundary values; beyond that the float result can only be larger by one (an entry expires up to 1 ns early)",
         "str.lower/upper modelled on ASCII letters only (generator: ASCII names plus caseless non-ASCII characters)",
         "single-threaded use of one auth object (the _lock sections are not modelled; concurrency is C09's subject)",
-        "the back-end `_login` is total (a raising back-end propagates unchanged through login() and is not modelled)",
+        "history-level theorems quantify over total back-ends; an attempt during which `_login` raises is modelled separately (login_body_fault) and exercised by the generator",
     ]
     ctx.trusted.append("vlib/x_C17.py: logical clock substituted for radicale.auth.time, scripted back-end, renaming of real digests to symbolic ones")
     ctx.prove()
@@ -265,8 +297,7 @@ def run(ctx):
         """pairs: list of (case, res).  Runs the repaired model variant in Coq on every history."""
         enc = [(X.enc_case(c), X.enc_expect(r)) for c, r in pairs]
         state["n"] += 1
-        bad = ctx.diff_cases("c17_%s%d" % (tag, state["n"]), X.header(), "(crun_case Vfix)", enc, ident, ident, "cexpect_eqb",
-                             shard=ctx.n(250, 500))
+        bad = X.diff_encoded(ctx, "c17_%s%d" % (tag, state["n"]), "(crun_case Vfix)", enc, "cexpect_eqb", ctx.n(250, 500))
         if bad is None:
             return
         t = corr.setdefault(tag, [0, 0, ""])
@@ -295,7 +326,7 @@ def run(ctx):
     n_mal = ctx.n(500, 8000)
     batch = []
     for i in range(n_rand + n_mal):
-        case = gen_case(ctx.rng, malformed=i >= n_rand)
+        case = gen_case(ctx.rng, malformed=i >= n_rand, deep=not ctx.quick)
         res = X.run_real(case)
         batch.append((case, res))
         nt = nontrivial(case, res)
@@ -304,6 +335,10 @@ def run(ctx):
         ctx.count("kind:malformed-logins" if i >= n_rand else "kind:generated")
         if any(n in ("ab", "abc", "x:y", "x:") for n, _, _ in case["creds"]):
             ctx.count("kind:equal-concatenations")
+        if any(len(p_) > 12 for _, p_, _ in case["creds"]):
+            ctx.count("kind:long-secrets-common-prefix")
+        if any(e[0] == "F" for e in case["events"]):
+            ctx.count("kind:with-backend-fault")
         ctx.count("events:%s" % ("1-5" if len(case["events"]) <= 5 else "6-15" if len(case["events"]) <= 15 else "16-30"))
         for o in res["obs"]:
             ctx.count("outcome:%s%s" % ("raise" if o["out"][0] == "raise" else ("ok" if o["out"][1] else "rejected"),
@@ -487,7 +522,7 @@ def classify(ctx, disagreeing, allpairs):
         if f1 and f2 and f3:
             continue
         fn = "(crun_case %s)" % X.variant_term(f1, f2, f3)
-        bad = ctx.diff_cases("c17_var_%d%d%d" % (f1, f2, f3), X.header(), fn, enc, ident, ident, "cexpect_eqb", shard=200)
+        bad = X.diff_encoded(ctx, "c17_var_%d%d%d" % (f1, f2, f3), fn, enc, "cexpect_eqb", 200)
         if bad is not None and not bad:
             matches.append(dict(fix1=f1, fix2=f2, fix3=f3))
     ctx.extra["implementation_matches_model_variant"] = matches
